@@ -1037,7 +1037,8 @@ class Generator:
             return {"op": "ref", "t": tid, "how": self.rng.choice(["attr", "item"]), "name": name}
 
         def hide(i):
-            if state.get("r") not in self.m.refs:
+            pt0 = self.m.tables.get(state.get("t"))
+            if state.get("r") not in self.m.refs or pt0 is None or len(pt0.m.visible) < 2:
                 self.plan.clear()
                 return None
             state["h"] = f"t{i}"
